@@ -8,6 +8,12 @@ argkind (optional trailing string; the model never sees it, the expected behavio
   rmfrom: list | set | tuple | frozenset | gen | filter | map | keysF | keysS (the registry's own .keys() view: removes
           every F- / S-node; the position list is then ignored);   addf / adds: list | set | frozenset | tuple | keys
           (only when the targets have no duplicates).
+["addfa", o, ts, [[kind, pos]..]] = add_f_node(ts + the augmented nodes at these registry positions); ["addfall", o] =
+add_f_node(set(G.nodes)).  HEAD accepts existing augmented nodes as targets and registers them as given (edge F -> target);
+the model follows ("registered with exactly the targets it was created with").  Once a history removes an augmented node that
+is a registered target ("removal of target nodes": outside the claim) the comparison of that history stops there.
+["new", cls, vs, "nx"]: the constructor gets networkx graph objects per layer (nodes vs, no edges); every "nx" new of one
+history gets the SAME objects, which must stay untouched and must not be shared by the graphs built from them.
 case["obs"] = "all" (default: every live object is observed after every op, so each op runs on objects whose f_nodes /
 s_nodes / intervention_sets / domain_ids / children were just queried -- a cached property would go stale) or "last"
 (nothing is queried before the final op: statuses are compared at every step, observables only at the end).
@@ -25,7 +31,7 @@ PROP = "C20"
 MODE = 1 if os.environ.get("C20_ASIS") else 0
 FIELDS = ["cls", "nodes", "F-registry", "S-registry", "unregistered-aug-nodes", "edges", "domains",
           "intervention_sets", "domain_ids", "f_nodes/s_nodes"]
-OPN = {"new": 0, "copy": 1, "addf": 2, "addfs": 3, "adds": 4, "rm": 5, "rmfrom": 6, "node": 7, "edge": 8}
+OPN = {"new": 0, "copy": 1, "addf": 2, "addfs": 3, "adds": 4, "rm": 5, "rmfrom": 6, "node": 7, "edge": 8, "addfa": 2, "addfall": 9}
 
 RULE = ("histories over 1-3 live objects (AugmentedGraph and AugmentedPAG, also mixed), ordinary nodes 0..2 (+3 via add_node): "
         "ALL histories of length <=3 (quick) / <=4 (thorough; at length 4 at most 2 live objects) over the reduced alphabet "
@@ -63,10 +69,22 @@ IMPL_TIMEOUT = 60
 
 
 # ------------------------------------------------------------------ generation
-def alphabet(nobj, maxobj, cls):
+def alphabet_aug(nobj, maxobj, cls, nx=False):
+    """reduced alphabet around augmented nodes as intervention targets"""
     ops = []
     if nobj < maxobj:
-        ops.append(["new", cls, [0, 1, 2]])
+        for o in range(nobj):
+            ops.append(["copy", o])
+    for o in range(nobj):
+        ops += [["addf", o, [0]], ["adds", o, 1, 2, [0]], ["addfa", o, [1], [[0, 0]]], ["addfa", o, [], [[0, 0], [1, 0]]],
+                ["addfall", o], ["rm", o, 0, 0], ["rm", o, 0, 1], ["rm", o, 1, 0]]
+    return ops
+
+
+def alphabet(nobj, maxobj, cls, nx=False):
+    ops = []
+    if nobj < maxobj:
+        ops.append(["new", cls, [0, 1, 2]] + (["nx"] if nx else []))
         for o in range(nobj):
             ops.append(["copy", o])
     for o in range(nobj):
@@ -79,14 +97,16 @@ def alphabet(nobj, maxobj, cls):
     return ops
 
 
-def histories(length, cls, maxobj=3):
+def histories(length, cls, maxobj=3, nx=False, alpha=None):
+    alpha = alpha or alphabet
+
     def rec(prefix, nobj, left):
         if left == 0:
             yield prefix
             return
-        for op in alphabet(nobj, maxobj, cls):
+        for op in alpha(nobj, maxobj, cls, nx):
             yield from rec(prefix + [op], nobj + (1 if op[0] in ("new", "copy") else 0), left - 1)
-    yield from rec([["new", cls, [0, 1, 2]]], 1, length)
+    yield from rec([["new", cls, [0, 1, 2]] + (["nx"] if nx else [])], 1, length)
 
 
 WITNESSES = [  # Refuted.v: h_reuse+add, h_copy+add, h_two+add_s, h_snode, h_rmfrom (positions instead of names), then variants
@@ -106,11 +126,20 @@ WITNESSES = [  # Refuted.v: h_reuse+add, h_copy+add, h_two+add_s, h_snode, h_rmf
     [["new", 1, [0, 1, 2]], ["addf", 0, [0]], ["addf", 0, [1]], ["rmfrom", 0, [[0, 1]], "filter"], ["addf", 0, [1]]],
     [["new", 0, [0, 1, 2]], ["addf", 0, [0]], ["copy", 0], ["rmfrom", 1, [[0, 0]], "map"], ["addf", 1, [0]]],
 ]
+WITNESSES += [
+    # two graphs built from the same networkx objects must not share a layer
+    [["new", 0, [0, 1, 2], "nx"], ["new", 0, [0, 1, 2], "nx"], ["addf", 0, [0]], ["addf", 1, [2]]],
+    [["new", 1, [0, 1, 2], "nx"], ["new", 0, [0, 1, 2], "nx"], ["adds", 1, 1, 2, [1]], ["addf", 0, [1]]],
+    # augmented nodes as intervention targets are registered as given
+    [["new", 0, [0, 1, 2]], ["addf", 0, [0]], ["adds", 0, 1, 2, [1]], ["addfa", 0, [1], [[0, 0], [1, 0]]], ["addfall", 0]],
+    [["new", 1, [0, 1, 2]], ["addf", 0, [0]], ["addfall", 0], ["copy", 0], ["addfa", 1, [], [[0, 1]]]],
+]
 RM_KINDS = ["list", "set", "tuple", "frozenset", "gen", "filter", "map", "keysF", "keysS"]
 ADD_KINDS = ["list", "set", "frozenset", "tuple", "keys"]
 
 
 def random_history(rng, length):
+    nxmode = rng.random() < 0.3
     nobj = 0
     ops = []
     nreg = []  # rough count of registered nodes per object (to aim removals at existing positions)
@@ -121,14 +150,21 @@ def random_history(rng, length):
                 ops.append(["copy", o])
                 nreg.append(list(nreg[o]))
             else:
-                ops.append(["new", rng.randint(0, 1), [0, 1, 2]])
+                ops.append(["new", rng.randint(0, 1), [0, 1, 2]] + (["nx"] if nxmode else []))
                 nreg.append([0, 0])
             nobj += 1
             continue
         o = rng.randrange(nobj)
         r = rng.random()
         nodes = list(range(5))
-        if r < 0.30:
+        if r < 0.05:
+            if rng.random() < 0.2:
+                ops.append(["addfall", o])
+            else:
+                ats = [[k, rng.randrange(nreg[o][k] + 1)] for k in (0, 1) if rng.random() < 0.6]
+                ops.append(["addfa", o, rng.sample(nodes[:3], rng.choice([0, 1, 2])), ats])
+            nreg[o][0] += 1
+        elif r < 0.30:
             ts = rng.sample(nodes[:4], rng.choice([0, 1, 1, 1, 2, 2, 3]))
             if rng.random() < 0.04 and ts:
                 ts = ts + [ts[0]]
@@ -180,6 +216,15 @@ def gen_cases(tier, rng):
                 yield {"kind": "exh%d" % n, "ops": h}
                 if n >= 2:
                     yield {"kind": "exh%d-last" % n, "ops": h, "obs": "last"}
+    for cls in (0, 1):
+        for n in range(1, 4):
+            for h in histories(n, cls, nx=True):
+                if sum(1 for op in h if op[0] == "new") > 1:      # sharing needs two graphs from the same objects
+                    yield {"kind": "exh%d-nx" % n, "ops": h}
+        for n in range(1, 4 if tier == "quick" else 5):
+            for h in histories(n, cls, maxobj=2, alpha=alphabet_aug):
+                if any(op[0] in ("addfa", "addfall") for op in h):
+                    yield {"kind": "exh%d-augtargets" % n, "ops": h}
     if tier != "quick":
         for cls in (0, 1):
             for h in histories(4, cls, maxobj=2):
@@ -215,9 +260,9 @@ def encode(case):
 def _derived(obj):
     """cls, nodes, F, S, stray, edges, domains  ->  + intervention_sets, domain_ids, [nF, nS]"""
     F, S = obj[2], obj[3]
-    isets = sorted({tuple(e[1]) for e in F})
+    isets = sorted({(tuple(e[1]), tuple(tuple(p) for p in e[4])) for e in F})
     dids = sorted({d for e in S for d in (e[1], e[2])})
-    return list(obj) + [[list(t) for t in isets], dids, [len(F), len(S)]]
+    return list(obj) + [[[list(t[0]), [list(p) for p in t[1]]] for t in isets], dids, [len(F), len(S)]]
 
 
 def decode(case, v):
@@ -237,17 +282,29 @@ def _render(G, inv):
     augn = [n for n in nodes if not is_ord(n)]
     freg, sreg = G.graph["F-nodes"], G.graph["S-nodes"]
 
+    fkeys, skeys = list(freg), list(sreg)
+
+    def raug(a):     # name-free: (kind, position in the registry), (2, 0) when not registered
+        if a in freg:
+            return (0, fkeys.index(a))
+        if a in sreg:
+            return (1, skeys.index(a))
+        return (2, 0)
+
+    def split(ns):
+        ns = list(ns)
+        return (sorted(inv(c) for c in ns if is_ord(c)), [list(p) for p in sorted({raug(c) for c in ns if not is_ord(c)})])
+
     def kids(a):
-        if a not in G.nodes:
-            return []
-        return sorted(inv(c) if is_ord(c) else 99 for c in G.children(a))
-    F = [[int(f in G.nodes), sorted(inv(t) for t in e["targets"]), sorted(e["domain"]), kids(f)] for f, e in list(freg.items())]
-    S = [[int(s in G.nodes), d[0], d[1], kids(s)] for s, d in list(sreg.items())]
+        return split(G.children(a)) if a in G.nodes else ([], [])
+    F = [[int(f in G.nodes), split(e["targets"])[0], sorted(e["domain"]), kids(f)[0], split(e["targets"])[1], kids(f)[1]]
+         for f, e in list(freg.items())]
+    S = [[int(s in G.nodes), d[0], d[1], kids(s)[0]] for s, d in list(sreg.items())]
     stray = [sum(1 for n in augn if n[0] == "F" and n not in freg), sum(1 for n in augn if n[0] != "F" and n not in sreg)]
     edges = sorted([inv(u), inv(v)] for u, v in G.edges()[G.directed_edge_name] if is_ord(u) and is_ord(v))
-    isets = sorted(tuple(sorted(inv(t) for t in s)) for s in G.intervention_sets)
+    isets = sorted({(tuple(split(s)[0]), tuple(tuple(p) for p in split(s)[1])) for s in G.intervention_sets})
     return [0 if type(G).__name__ == "AugmentedGraph" else 1, ordn, F, S, stray, edges, sorted(G.domains),
-            [list(t) for t in isets], sorted(G.domain_ids),
+            [[list(t[0]), [list(p) for p in t[1]]] for t in isets], sorted(G.domain_ids),
             [len(G.f_nodes) if G.f_nodes == list(freg) else -1, len(G.s_nodes) if G.s_nodes == list(sreg) else -1]]
 
 
@@ -295,6 +352,23 @@ def run_impl(case):
             return G.graph["S-nodes"].keys()
         return items
 
+    sources = {}
+
+    def nx_sources(vs):
+        k = tuple(vs)
+        if k not in sources:
+            gs = []
+            for c in (nx.DiGraph, nx.Graph, nx.Graph, nx.DiGraph):
+                g0 = c()
+                g0.add_nodes_from([lab(v) for v in vs])
+                gs.append(g0)
+            sources[k] = (gs, [(sorted(map(repr, g0.nodes)), sorted(map(repr, g0.edges))) for g0 in gs])
+        return sources[k][0]
+
+    def sources_touched():
+        return any([(sorted(map(repr, g0.nodes)), sorted(map(repr, g0.edges))) for g0 in gs] != snap
+                   for gs, snap in sources.values())
+
     last_only = case.get("obs") == "last"
     nops = len(case["ops"])
     for step_i, op in enumerate(case["ops"]):
@@ -304,8 +378,15 @@ def run_impl(case):
         quiet = last_only and step_i < nops - 1
         try:
             if t == "new":
-                G = (am.AugmentedGraph, am.AugmentedPAG)[op[1]]()
-                G.add_nodes_from([lab(v) for v in op[2]])
+                if ak == "nx":
+                    d, b, u, c = nx_sources(op[2])
+                    kw = dict(incoming_directed_edges=d, incoming_bidirected_edges=b, incoming_undirected_edges=u)
+                    if op[1] == 1:
+                        kw["incoming_circle_edges"] = c
+                    G = (am.AugmentedGraph, am.AugmentedPAG)[op[1]](**kw)
+                else:
+                    G = (am.AugmentedGraph, am.AugmentedPAG)[op[1]]()
+                    G.add_nodes_from([lab(v) for v in op[2]])
                 objs.append(G)
             elif op[1] >= len(objs):
                 st = 3
@@ -313,11 +394,20 @@ def run_impl(case):
                 G = objs[op[1]]
                 if t == "copy":
                     objs.append(G.copy())
-                elif t in ("addf", "addfs", "adds"):
+                elif t in ("addf", "addfs", "adds", "addfa", "addfall"):
                     before = 0 if last_only else aug_count(G)
                     want = 1
                     if t == "addf":
                         G.add_f_node(as_kind([lab(v) for v in op[2]], ak))
+                    elif t == "addfa":
+                        names = []
+                        for k, pos in op[3]:
+                            keys = list(G.graph["F-nodes" if k == 0 else "S-nodes"])
+                            if pos < len(keys):
+                                names.append(keys[pos])
+                        G.add_f_node([lab(v) for v in op[2]] + names)
+                    elif t == "addfall":
+                        G.add_f_node(set(G.nodes))
                     elif t == "addfs":
                         want = len(op[2])
                         G.add_f_nodes_from([[lab(v) for v in ts] for ts in op[2]])
@@ -346,6 +436,8 @@ def run_impl(case):
             st = 1
         except nx.NetworkXError:
             st = 2
+        if sources and sources_touched():
+            reused = 2
         trace.append([st, None if quiet else [_render(G, inv) for G in objs], reused])
     return trace
 
@@ -373,6 +465,10 @@ def compare(case, impl, model):
     asis = case.get("mode", MODE)
     for i, (a, b) in enumerate(zip(impl, model)):
         name = ops[i][0]
+        if any([2, 0] in e[4] for o in b[1] for e in o[2]):
+            return None       # a registered target node has been removed: outside the claim from here on
+        if a[2] == 2:
+            return "constructor-argument-mutated"
         if a[2] and not asis:
             return "fresh-name"
         if a[0] != b[0]:
@@ -454,6 +550,12 @@ def shrink(case):
     for i, op in enumerate(ops):
         if op[0] == "addf" and len(op[2]) > 1:
             yield dict(case, ops=ops[:i] + [["addf", op[1], op[2][:1]] + op[3:]] + ops[i + 1:])
+        if op[0] == "addfa" and op[3]:
+            yield dict(case, ops=ops[:i] + [["addfa", op[1], op[2], op[3][:-1]]] + ops[i + 1:])
+        if op[0] == "addfa" and not op[3]:
+            yield dict(case, ops=ops[:i] + [["addf", op[1], op[2]]] + ops[i + 1:])
+        if op[0] == "addfa" and op[2]:
+            yield dict(case, ops=ops[:i] + [["addfa", op[1], op[2][:-1], op[3]]] + ops[i + 1:])
         if op[0] == "addfs" and len(op[2]) > 1:
             yield dict(case, ops=ops[:i] + [["addfs", op[1], op[2][:-1]]] + ops[i + 1:])
         if op[0] == "addfs" and len(op[2]) == 1:
@@ -467,4 +569,4 @@ def shrink(case):
         if case.get("obs") == "last":
             yield dict(case, obs="all")
         if op[0] == "new" and op[1] == 1:
-            yield dict(case, ops=ops[:i] + [["new", 0, op[2]]] + ops[i + 1:])
+            yield dict(case, ops=ops[:i] + [["new", 0] + op[2:]] + ops[i + 1:])
